@@ -108,7 +108,8 @@ Record thread := Thread {
   t_name : name;
   t_pc : pc;
   t_ld : option chan;      (* load channel registered by this goroutine (released by its defer) *)
-  t_ctx : mctx
+  t_ctx : mctx;
+  t_waited : option chan   (* history variable: the channel whose close woke this goroutine last *)
 }.
 
 Record state := State {
@@ -128,9 +129,10 @@ Definition upd {A} (f : nat -> A) (k : nat) (v : A) : nat -> A :=
 
 Definition set_thr (s : state) (t : tid) (th : thread) : state :=
   State (lmap s) (omap s) (closed s) (nextc s) (cache s) (store s) (upd (thr s) t (Some th)) (now s) (fresh s).
-Definition set_pc (th : thread) (p : pc) : thread := Thread (t_name th) p (t_ld th) (t_ctx th).
-Definition set_ctx (th : thread) (x : mctx) : thread := Thread (t_name th) (t_pc th) (t_ld th) x.
-Definition set_ld (th : thread) (l : option chan) : thread := Thread (t_name th) (t_pc th) l (t_ctx th).
+Definition set_pc (th : thread) (p : pc) : thread := Thread (t_name th) p (t_ld th) (t_ctx th) (t_waited th).
+Definition set_ctx (th : thread) (x : mctx) : thread := Thread (t_name th) (t_pc th) (t_ld th) x (t_waited th).
+Definition set_ld (th : thread) (l : option chan) : thread := Thread (t_name th) (t_pc th) l (t_ctx th) (t_waited th).
+Definition set_waited (th : thread) (w : option chan) : thread := Thread (t_name th) (t_pc th) (t_ld th) (t_ctx th) w.
 Definition set_cache (s : state) (n : name) (l : list cert) : state :=
   State (lmap s) (omap s) (closed s) (nextc s) (upd (cache s) n l) (store s) (thr s) (now s) (fresh s).
 Definition set_store (s : state) (n : name) (c : option cert) : state :=
@@ -196,7 +198,8 @@ Definition thread_step (s : state) (t : tid) (th : thread) (a : act) : option st
       | None =>
           Some (set_thr (reg_l s n) t (set_ld (set_pc th (PGate1 load)) (Some (nextc s))))
       end
-  | PLoadWait ch since, AWake => guard (closed s ch) (go (PStart false))
+  | PLoadWait ch since, AWake =>
+      guard (closed s ch) (Some (set_thr s t (set_waited (set_pc th (PStart false)) (Some ch))))
   | PLoadWait ch since, ATimeout => guard (since + t_load_wait <=? now s) (go (PRet RErr))
   | PLoadWait ch since, ACancel => go (PRet RErr)
   | PGate1 load, AGate allow =>
@@ -222,7 +225,8 @@ Definition thread_step (s : state) (t : tid) (th : thread) (a : act) : option st
       | Some ch => go (PObtWait ch (now s))
       | None => Some (set_thr (reg_o s n) t (set_pc th (PObtain (nextc s) (now s))))
       end
-  | PObtWait ch since, AWake => guard (closed s ch) (go (PStart false))
+  | PObtWait ch since, AWake =>
+      guard (closed s ch) (Some (set_thr s t (set_waited (set_pc th (PStart false)) (Some ch))))
   | PObtWait ch since, ATimeout => guard (since + t_obtain_wait <=? now s) (go (PRet RErr))
   | PObtain ch started, AStep _ =>
       (* ObtainCertAsync is a no-op when the bundle exists by now *)
@@ -253,9 +257,10 @@ Definition thread_step (s : state) (t : tid) (th : thread) (a : act) : option st
           else
             guard (negb (Nat.eqb b t) && is_none (thr s b))
               (Some (set_thr (set_thr (reg_o s n) t (set_pc th (PRet (RCert c))))
-                             b (Thread n (PRenGate ch c true (now s)) None CtxNone)))
+                             b (Thread n (PRenGate ch c true (now s)) None CtxNone None)))
       end
-  | PRenWait ch since, AWake => guard (closed s ch) (go (PStart false))
+  | PRenWait ch since, AWake =>
+      guard (closed s ch) (Some (set_thr s t (set_waited (set_pc th (PStart false)) (Some ch))))
   | PRenWait ch since, ATimeout => guard (since + t_renew_wait <=? now s) (go (PRet RErr))
   | PRenGate ch c bg st, AGate allow =>
       if allow then go (PRenLoad ch c bg st)
@@ -303,7 +308,7 @@ Definition step (s : state) (l : label) : option state :=
   match l with
   | LThread t a => match thr s t with Some th => thread_step s t th a | None => None end
   | LArrive t n =>
-      guard (is_none (thr s t)) (Some (set_thr s t (Thread n (PStart true) None CtxNone)))
+      guard (is_none (thr s t)) (Some (set_thr s t (Thread n (PStart true) None CtxNone None)))
   | LTick d => guard (0 <=? d) (Some (tick s d))
   | LStoreDel n => Some (set_store s n None)
   | LStorePut n c => Some (set_store s n (Some c))
